@@ -20,10 +20,6 @@ Definition decode (r : list N) : kevent :=
 Lemma from_kd_buf_decode r : length r = 64%nat -> from_kd_buf r = Some (decode r).
 Proof. intros H. unfold decode. destruct (proj2 (from_kd_buf_some_iff r) H) as [e ->]. reflexivity. Qed.
 
-Lemma firstn_app_exact {A} (a b : list A) : firstn (length a) (a ++ b) = a.
-Proof. rewrite firstn_app, Nat.sub_diag, firstn_all. cbn. apply app_nil_r. Qed.
-Lemma skipn_app_exact {A} (a b : list A) : skipn (length a) (a ++ b) = b.
-Proof. rewrite skipn_app, Nat.sub_diag, skipn_all. reflexivity. Qed.
 
 (* ---------------- records loop ---------------- *)
 Lemma recs2_step f r rest : length r = 64%nat ->
